@@ -11,7 +11,8 @@ ALL_TYPES = "legacy,tweakless,anchors,zerofee,lease,taproot,taprootfinal"
 
 # per property: MC configs per tier, generator constants, executor env, number of behaviours
 PROFILE = {
-    "C01": dict(mc=dict(quick=["mc_c01_quick"], thorough=["mc_c01_quick", "mc_c01_thorough"]),
+    "C01": dict(mc=dict(quick=["mc_c01_quick", "ChannelGhost:mc_ghost"],
+                        thorough=["mc_c01_quick", "ChannelGhost:mc_ghost", "mc_c01_thorough"]),
                 gen=dict(MaxDisc=0, MaxAdds=5, MaxFees=3, MaxLen=110),
                 n=dict(quick=70, thorough=700), shadow=1000000,
                 mc_timeout=dict(quick=600, thorough=3000)),
@@ -82,8 +83,9 @@ def run_channel(ck, prop, extra_overlay=None):
     prof = PROFILE[prop]
     tier = ck.tier
     # (a) the property on the model
-    for cfg in prof["mc"][tier]:
-        ck.model_check(SPEC, "ChannelMC", cfg + ".cfg", cfg, timeout=prof["mc_timeout"][tier],
+    for ent in prof["mc"][tier]:
+        module, cfg = ent.split(":") if ":" in ent else ("ChannelMC", ent)
+        ck.model_check(SPEC, module, cfg + ".cfg", cfg, timeout=prof["mc_timeout"][tier],
                        workers=min(core.NCPU, 12))
     # (b) behaviours
     n = prof["n"][tier]
